@@ -416,7 +416,11 @@ class TaskScenario(ScenarioData):
             # So we want end time between (successor_earliest - maxgap_hours) and (successor_earliest - gap_hours)
             # Ideally, end exactly at successor_earliest - gap_hours to minimize gap
 
-            desired_end = successor_earliest - timedelta(hours=gap_hours)
+            try:
+                desired_end = successor_earliest - timedelta(hours=gap_hours)
+            except OverflowError:
+                # A gap beyond the calendar: nothing to wait for
+                continue
 
             # Work backwards from desired_end to find required start
             # For effort-based tasks, we need 'effort' hours of work before desired_end
@@ -558,15 +562,28 @@ class TaskScenario(ScenarioData):
                                 # Working slots that cover the gap (a slot is not always an hour:
                                 # 'gaplength 2h' at a 30 minute resolution is four slots)
                                 slot_seconds = self.project.attributes.get("scheduleGranularity", 3600) or 3600
-                                gap_slots = -int(-(gap_hours * 3600.0) // slot_seconds)
+                                last_idx = self.project.dateToIdx(self.project["end"])
+                                try:
+                                    gap_slots = -int(-(gap_hours * 3600.0) // slot_seconds)
+                                except (OverflowError, ValueError):
+                                    # A gap no number can hold: a bound that can never be served
+                                    gap_slots = last_idx + 2
                                 dep_time_idx = self.project.dateToIdx(dep_time)
+                                if dep_time < self.project["start"]:
+                                    # The slot that holds a date before the project start (round down)
+                                    before = (self.project["start"] - dep_time).total_seconds()
+                                    dep_time_idx = int(-before // slot_seconds)
                                 # Skip gap_slots of working time
                                 working_slots = 0
-                                last_idx = self.project.dateToIdx(self.project["end"])
                                 # Stop at the end of the horizon: a bound out there leaves the
                                 # task unscheduled instead of indexing past the slot tables
                                 while working_slots < gap_slots and dep_time_idx <= last_idx:
-                                    if self.isWorkingTime(dep_time_idx):
+                                    if dep_time_idx < 0:
+                                        # Before the project start there are no slot tables: ask the calendar
+                                        working = self.project._isDefaultWorkingTime(self.project.idxToDate(dep_time_idx))
+                                    else:
+                                        working = self.isWorkingTime(dep_time_idx)
+                                    if working:
                                         working_slots += 1
                                     dep_time_idx += 1
                                 dep_time = self.project.idxToDate(dep_time_idx)
@@ -632,7 +649,11 @@ class TaskScenario(ScenarioData):
                                     gap_hours = self._parse_duration(gapduration, calendar=True)
                                     from datetime import timedelta
 
-                                    pred_start = pred_start - timedelta(hours=gap_hours)
+                                    try:
+                                        pred_start = pred_start - timedelta(hours=gap_hours)
+                                    except OverflowError:
+                                        # A gap beyond the calendar: a deadline that can never be met
+                                        pred_start = datetime.min
                                 if pred_start < latest_end:
                                     latest_end = pred_start
 
@@ -665,7 +686,11 @@ class TaskScenario(ScenarioData):
                             if gap_hours:
                                 from datetime import timedelta
 
-                                succ_start = succ_start - timedelta(hours=gap_hours)
+                                try:
+                                    succ_start = succ_start - timedelta(hours=gap_hours)
+                                except OverflowError:
+                                    # A gap beyond the calendar: a deadline that can never be met
+                                    succ_start = datetime.min
                         if succ_start and succ_start < latest_end:
                             latest_end = succ_start
 
